@@ -42,9 +42,11 @@ def msAppend (s : MocSet) (e : MsEntry) : MsRes :=
   else ({ s with entries := s.entries ++ [e] }, true)
 
 /-- `mocset chgstatus <status> id,id,...`: entries with status > removed and a listed id. -/
+def chgEntry (newStatus : Nat) (ids : List Nat) (x : MsEntry) : MsEntry :=
+  if x.status > 1 && ids.contains x.id then { x with status := newStatus } else x
+
 def msChgStatus (s : MocSet) (newStatus : Nat) (ids : List Nat) : MsRes :=
-  ({ s with entries := s.entries.map fun x =>
-      if x.status > 1 && ids.contains x.id then { x with status := newStatus } else x }, true)
+  ({ s with entries := s.entries.map (chgEntry newStatus ids) }, true)
 
 /-- `mocset purge [-n n128]`: physically drops removed entries. -/
 def msPurge (s : MocSet) (n128 : Option Nat) : MsRes :=
@@ -57,6 +59,20 @@ def msList (s : MocSet) : List (Nat × Nat × Nat × Nat × Nat) :=
 /-- `mocset extract id`: first entry with that id and status valid / deprecated. -/
 def msExtract (s : MocSet) (id : Nat) : Option MsEntry :=
   s.entries.find? fun e => e.id == id && e.status > 1
+
+/-- A history of update commands (`make` gives the initial state). -/
+inductive MsCmd where
+  | append (e : MsEntry)
+  | chg (newStatus : Nat) (ids : List Nat)
+  | purge (n128 : Option Nat)
+  deriving Repr
+
+def msStep (s : MocSet) : MsCmd → MocSet
+  | .append e => (msAppend s e).1
+  | .chg st ids => (msChgStatus s st ids).1
+  | .purge n => (msPurge s n).1
+
+def msRun (s : MocSet) (cs : List MsCmd) : MocSet := cs.foldl msStep s
 
 /-! ### queries (`query pos|cone|moc`, `union`) — the SPECIFICATION on covered sets -/
 
